@@ -892,6 +892,16 @@ func c11SetupGen(g *hx.Gen) {
 			emit(c11Config(d, args, block, hasBlock, tail))
 		}
 	}
+	// upstream addresses built part by part (c11addr.go); after everything else, so that the cases above are the
+	// same as before
+	addrs := c11Addrs(r, g.Thorough())
+	for _, d := range dirs {
+		hasUpstream := false
+		for _, w := range c11CaseWords(repo, c11Pkg[d]) {
+			hasUpstream = hasUpstream || w == "upstream"
+		}
+		c11AddrCases(d, hasUpstream, addrs, func(cfg string) { gcase(d, cfg) })
+	}
 }
 
 func init() {
